@@ -299,9 +299,9 @@ where
                 // history: the same array, as the first call left it, is used again. The routines may permute
                 // a lane but must leave it holding the same elements, so a second skip-NaN operation sees
                 // the same data (a differential check from a non-initial state).
-                // the history check runs on a deterministic eighth of the pivot sequences (those whose pivot
-                // positions sum to a multiple of 8; the all-first sequence is one of them)
-                if nsmc::explore::current_pivots().iter().sum::<usize>() % 8 != 0 {
+                // the history check runs after one pivot sequence of the first call per case (always the first
+                // element as pivot: the first leaf of the search), with all pivot sequences of the second call
+                if nsmc::explore::current_pivots().iter().any(|&p| p != 0) {
                     return hash_of(&flat.iter().map(|x| x.key()).collect::<Vec<_>>());
                 }
                 // What the array holds now is the input of the second call. The references computed from the
@@ -446,7 +446,9 @@ where
         let a = check_folds(&v, &data, "n-D IxDyn", lx);
         let b = match c.shape.len() {
             2 => check_folds(&v.clone().into_dimensionality::<Ix2>().unwrap(), &data, "n-D Ix2", lx),
-            _ => check_folds(&v.clone().into_dimensionality::<Ix3>().unwrap(), &data, "n-D Ix3", lx),
+            3 => check_folds(&v.clone().into_dimensionality::<Ix3>().unwrap(), &data, "n-D Ix3", lx),
+            4 => check_folds(&v.clone().into_dimensionality::<Ix4>().unwrap(), &data, "n-D Ix4", lx),
+            _ => check_folds(&v.clone().into_dimensionality::<Ix5>().unwrap(), &data, "n-D Ix5", lx),
         };
         hash_of(&(a, b))
     });
@@ -505,9 +507,13 @@ fn main() {
     let thorough = rep.cfg.thorough();
     let shapes: Vec<Vec<usize>> = if thorough { vec![vec![2, 3], vec![3, 2], vec![1, 4], vec![4, 1], vec![0, 3], vec![3, 0], vec![2, 2, 3], vec![3, 2, 2], vec![2, 1, 2]] } else { vec![vec![2, 3], vec![3, 2], vec![1, 3], vec![3, 1], vec![0, 3], vec![3, 0], vec![2, 2, 3], vec![2, 1, 2]] };
     let mut cases: Vec<CaseN> = Vec::new();
+    let mut shapes = shapes;
+    shapes.push(vec![2, 2, 2, 2]);
+    shapes.push(vec![2, 1, 2, 1, 2]);
     for shape in &shapes {
         let d = shape.len();
-        for l in all_layouts(d, &[1, 2, -1, -2]) {
+        let layouts = if d <= 3 { all_layouts(d, &[1, 2, -1, -2]) } else { nsmc::layouts::covering_layouts(d, &[1, 2, -1, -2]) };
+        for l in layouts {
             let nf = if thorough { 16 } else { 10 };
             for family in 0..nf {
                 for ty in [0u8, 2, 3] {
@@ -521,7 +527,7 @@ fn main() {
     }
     rep.run_sub(
         "n-dimensional",
-        &format!("shapes {:?} x all layouts x {} mask/content families (none, all, first-only, last-only missing, and mixed patterns) x f64 / Option<i32>; every entry point, quantile along every axis with q from the boundary grid, strategies rotating, 3 pivot policies x <= {} deviations; static and dynamic dimensionality", shapes, if thorough { 16 } else { 10 }, dev),
+        &format!("shapes {:?} x all layouts (4-D, 5-D: covering subset) x {} mask/content families (none, all, first-only, last-only missing, and mixed patterns) x f64 / Option<i32>; every entry point, quantile along every axis with q from the boundary grid, strategies rotating, 3 pivot policies x <= {} deviations; static and dynamic dimensionality", shapes, if thorough { 16 } else { 10 }, dev),
         cases.into_iter(),
         move |c, lx| {
             lx.nontrivial(c.family >= 2);
